@@ -18,6 +18,7 @@ fn any_addr() -> SocketAddrV4 {
 }
 
 //@ ob: C15.O1
+//@ also: C03 C05
 //@ rss: 0.9
 //@ time: 357
 //@ tier: quick
